@@ -75,7 +75,8 @@ class Codec:
         if s is None:
             r = rng.random()
             s = self.tok_string() if r < 0.35 else (self.csi_string() if r < 0.8 else (
-                self.tok_string('\x1b[0123456789;mHK @~?ab\n', 14) if r < 0.92 else self.tok_string('\x1b[\x9b\x9d\x901;m a', 9)))
+                self.tok_string('\x1b[0123456789;mHK @~?ab\n', 14) if r < 0.88 else (
+                    self.tok_string('\x1b[\x9b\x9d\x901;m a', 9) if r < 0.94 else self.tok_string('\x1b[[ABE1;m', 8))))
         allow, acc = flags if flags else rng.choice([(True, None), (False, None), (False, 'm'), (True, 'm'), (True, 'mJ'), (False, 'HJ'), (False, '~m'), (True, '@'), (True, ''), (False, '')])
         inp = P.line('tokenize', P.e_str(s), P.e_bool(allow), P.e_optstr(acc))
         PS = self.mod.ParsedAnsiControlSequenceString
@@ -92,6 +93,10 @@ class Codec:
             viol.append(('C19', 'tokenize_unformatted', '%r %r: %r vs %r' % (s, (allow, acc), p.unformatted_str, text)))
         if got != seqs or list(got) != sorted(got):
             viol.append(('C19', 'tokenize_sequences', '%r %r: %r vs %r' % (s, (allow, acc), got, seqs)))
+        # looking a position up that holds no sequence must not change the object
+        probe = call(lambda: p.sequences[len(text) + 7])
+        if not (probe[0] == 'err' and isinstance(probe[1], KeyError)) or {k: [(c.sequence, c.terminator) for c in v] for k, v in p.sequences.items()} != got:
+            viol.append(('C19', 'tokenize_sequences', 'sequences[%d] (no such removal point) answered %r and left %r' % (len(text) + 7, probe[1], list(p.sequences))))
         for nm, f in (('formatted_str', lambda: p.formatted_str), ('str', lambda: str(p)), ('repr', lambda: repr(p))):
             r = call(f)
             if r[0] != 'ok' or r[1] != s:
@@ -120,7 +125,7 @@ class Codec:
         k = rng.randrange(len(self.HELPERS))
         name = self.HELPERS[k]
         nargs = 2 if name == 'cursor_position_str' else 1
-        args = [rng.choice([0, 1, 2, 7, 10, 255, -1, 10 ** 30, rng.randint(0, 500)]) for _ in range(nargs)]
+        args = [rng.choice([0, 1, 2, 3, 4, 5, 6, 7, 10, 255, -1, 10 ** 30, rng.randint(0, 500)]) for _ in range(nargs)]
         import ansi_string.ansi_string as core
         fn = getattr(core, name)
         if rng.random() < 0.08:
@@ -368,7 +373,7 @@ class Codec:
             a = bad_sargs(rng) if rng.random() < 0.2 else good_sargs(rng)
             if rng.random() < 0.12:
                 a = (rng.choice(['list', 'tuple']), [('int', c) for c in rng.choice([[38, 5], [48, 2, 10, 20], [1, 58, 5], [38, 2, 1, 2, 3, 4], [4, 38, 5, 200],
-                                                                                    [38], [38, 5, 1, 48], [58, 2], [38, 7, 1], [0, 38, 5, 9, 0]])])
+                                                                                    [38], [38, 5, 1, 48], [58, 2], [38, 7, 1], [0, 38, 5, 9, 0], [38, 5, 48, 5], [38, 2, 10, 58, 2, 4], [48, 5, 38, 2], [38, 5, 58], [48, 2, 10, 38, 200]])])
             if rng.random() < 0.2:
                 a = ('list', [a, ('tuple', [good_sargs(rng), ('list', [good_sargs(rng)])])])
         import ansi_string.ansi_string as core
